@@ -14,7 +14,6 @@ import random
 import re
 
 from common import Driver, Violation, make_request, runner, mix64, Event, Result
-import build as jbuild
 import c10_image as img
 from c10_janet import CORPUS_SRC, PRELUDE, ASM_SOURCES
 
@@ -151,14 +150,13 @@ def a_operand(kind, r, ctx):
     return "0"
 
 
-OPERANDS = {"0": "", "S": "S", "ST": "ST", "SSI": "SSI", "SSS": "SSS", "SS": "SS", "SSU": "SSU", "L": "L", "SL": "SL",
-            "SI": "SI", "SU": "SU", "SC": "SC", "SES": "SES", "SD": "SD"}
-
 
 def a_instr(r, ctx):
     name = r.choice(A_OPS)
     typ = img.INSTR_TYPES[img.OP_NAMES[name]]
-    return "(%s)" % " ".join([name] + [a_operand(k, r, ctx) for k in OPERANDS[typ]])
+    # the letters of the type name are the operand kinds (S slot, I/U immediate, L label, T type, D funcdef,
+    # C constant, E environment); "0" = no operands
+    return "(%s)" % " ".join([name] + [a_operand(k, r, ctx) for k in typ.replace("0", "")])
 
 
 def a_desc(r, depth, parents):
@@ -439,12 +437,12 @@ class C10(Driver):
                 for a in range(0, len(b) + 1, TEAR_OFFSETS_PER_CHUNK):
                     ch.append(("tear", name, a, min(len(b) + 1, a + TEAR_OFFSETS_PER_CHUNK)))
             for name, b, _ in self.corpus():
-                for a in range(0, len(b), FLIP_OFFSETS_PER_CHUNK):
-                    ch.append(("flip", name, a, min(len(b), a + FLIP_OFFSETS_PER_CHUNK)))
-            for name, b, _ in self.corpus():
                 hot = [i for i, f in enumerate(self.parsed(name)[0]) if img.is_hot(f)]
                 for a in range(0, len(hot), FIELDS_PER_CHUNK):
                     ch.append(("field", name, a, min(len(hot), a + FIELDS_PER_CHUNK)))
+            for name, b, _ in self.corpus():
+                for a in range(0, len(b), FLIP_OFFSETS_PER_CHUNK):
+                    ch.append(("flip", name, a, min(len(b), a + FLIP_OFFSETS_PER_CHUNK)))
             self._enum = ch
         return self._enum
 
